@@ -45,6 +45,11 @@ def run(ctx):
     C03.check_trim(ctx, sp, rule='C09.lines')
     # Url::parseQuery / HttpRequest::query() / form bodies cut the query into parameters with String::split(sep1, sep2)
     C03.check_split_dic(ctx, sp, rule='C09.query')
+    # the dispatcher lower-cases header values the peer sent (`header("Connection").toLowerCase()`): the case mappings stay in
+    # bounds on ill-formed bytes (shared rule C08.casebytes)
+    import C08
+    up = ir.load_units([os.path.join(ir.REPO, 'src', x) for x in ('String.cpp', 'unicodedata.cpp')])      # the case tables live in unicodedata.cpp
+    C08.check_case_bytes(ctx, up)
     return __doc__.split('\n\n', 1)[1]
 
 
